@@ -473,7 +473,9 @@ def core_pool():
     t0 = ('tab', 0, [(1, True, S('u32')), (2, True, ('str', 1)), (3, False, S('u8'))])
     # wide strings inside table entries (their size estimate frames the entry)
     tw = ('tab', 9, [(1, True, ('str', 2)), (2, True, ('str', 4)), (3, True, vec(S('u32')))])
-    P += [t1, t2, t3, t4, t0, tw, st(t1, S('u16')), vec(t2)]
+    # entries that hold an Optional (a present entry whose value is Nil is still a present entry)
+    to = ('tab', 41, [(1, True, ('opt', S('u8'))), (2, True, ('opt', ('str', 1))), (3, True, S('u32')), (4, False, S('u8'))])
+    P += [t1, t2, t3, t4, t0, tw, to, st(t1, S('u16')), vec(t2)]
     # handles at every nesting position (C15): variant alternatives, optional members of sequence
     # elements, map values, arrays, pairs, Result values, table entries, nested tables
     hv = ('var', [h0, S('u8'), h1])
